@@ -36,6 +36,9 @@ func c10(r *core.Run) {
 	c10EqualityOnBytes(r, "D2")
 	r.Rule("V1", "references in served values stay decodable (shared with C17.G2): IsValidRID - the test the store's value parser applies to every reference when the change handler diffs before and after - accepts exactly 33..126 with '?' singled out; a narrower class (\"~\" rejected) makes the diff of any value holding such a reference fail, and the change is served by get but never announced", 1)
 	c17CharClass(r, "V1", map[string]bool{"IsValidRID": true})
+	r.Rule("B2", "a get and a write of one resource exclude each other (shared idea with C11.K1): where a store locks per key, Read and Write - and the two Close methods - hand the lock the same thing, the transaction's id: a read lock on the prefixed database key beside a write lock on the bare id excludes nothing, a get then overlaps the write of the same resource and its response and the change events cross", 2)
+	c10SameLockKey(r, "B2")
+	r.Rule("D3", "a diff is computed in memory of its own: the change handler and everything it calls in the package store into no member of the handler object and append to no slice kept there - one handler serves every resource of its pattern, and stores that lock per id (badgerstore) run the change callback of different resources at the same time: a scratch buffer on the handler is overwritten by the other diff and the events sent describe another collection", 1)
 	r.Rule("D1", "model diff: the delete action is stored exactly on the not-present edge of the lookup in the new map, a key is reported only where it is new or Value.Equal is false, and the resulting map is what ChangeEvent receives", 3)
 
 	c11CacheCoherence(r, "B1", "store/badgerstore")
@@ -77,6 +80,7 @@ func c10(r *core.Run) {
 		r.Unres("T1", "storeHandler.<get>/<change>", "cannot resolve the get handler (takes a GetRequest) or the change handler (id, before, after)")
 		return
 	}
+	c10DiffOwnsItsMemory(r, chg)
 	// ---- G1 ----------------------------------------------------------------
 	// the get response is published while the read transaction is open: the store's change events
 	// are published under the writer's transaction, so for one resource responses and events leave
@@ -160,7 +164,7 @@ func c10(r *core.Run) {
 
 	// ---- S1: find the selection tests -----------------------------------
 	var createCall, deleteCall ssa.CallInstruction
-	for _, c := range core.Calls(chg) {
+	for _, c := range helperCalls(p, chg) { // the selection may sit in a helper handed both sides
 		if c.Common().IsInvoke() {
 			switch c.Common().Method.Name() {
 			case "CreateEvent":
@@ -342,13 +346,21 @@ func c10(r *core.Run) {
 			r.Bad("T1", core.FuncName(chg), "default-for-missing-"+x.name, p.Pos(chg.Pos()), "cannot find the "+x.name+" representation tested for nil")
 			continue
 		}
-		pol := defPolarities(x.v)
+		// the nil test may sit in a selection helper: the tested value is then the helper's parameter,
+		// standing for what the change handler hands in
+		xv := x.v
+		if prm, isP := xv.(*ssa.Parameter); isP && prm.Parent() != chg {
+			if as := paramArgs(p, prm, 0); len(as) == 1 {
+				xv = as[0]
+			}
+		}
+		pol := defPolarities(xv)
 		good := pol["any"] || (pol["transformer-set"] && pol["no-transformer"])
 		if !getDefault && len(pol) == 0 {
 			r.OKTrivial("T1", core.FuncName(chg), "default-for-missing-"+x.name, p.Pos(chg.Pos()), "neither handler uses a default")
 			continue
 		}
-		r.Check(good, "T1", core.FuncName(chg), "default-for-missing-"+x.name+":with-and-without-transformer", p.InstrPos(x.v.(ssa.Instruction)),
+		r.Check(good, "T1", core.FuncName(chg), "default-for-missing-"+x.name+":with-and-without-transformer", posOfV(p, xv, chg),
 			"a nil "+x.name+" value is replaced by the default whether or not a transformer is set, as in the get handler", fmt.Sprintf("the default replaces a nil %s value only under %v, while the get handler serves the default for a missing value in every configuration: a client that fetched the default is sent create/delete (which the gateway does not apply to a cached resource) instead of the change to/from the default", x.name, core.SortedKeys(pol)))
 	}
 
@@ -702,4 +714,94 @@ func c10EqualityOnBytes(r *core.Run, rule string) {
 		}
 	}
 	r.Check(bad == "", rule, core.FuncName(eq), "values-compared-on-their-encoded-bytes", p.Pos(eq.Pos()), fmt.Sprintf("%d calls in Equal's unit: no decoding into interface{}, no deep comparison", n), "Value.Equal compares decoded values ("+bad+"): JSON numbers are compared as float64, so a change between two integers that round to the same float64 is not seen as a change - no event is published and the client keeps the old value")
+}
+
+// c10DiffOwnsItsMemory is C10.D3.
+func c10DiffOwnsItsMemory(r *core.Run, chg *ssa.Function) {
+	p := r.P
+	bad := ""
+	n := 0
+	for _, h := range p.Scope(chg) {
+		for _, b := range h.Blocks {
+			for _, in := range b.Instrs {
+				n++
+				switch x := in.(type) {
+				case *ssa.Store:
+					if f, ok := core.FieldOf(x.Addr); ok && strings.HasSuffix(f.Struct, "storeHandler") {
+						bad = "store to " + f.String() + " at " + p.InstrPos(x)
+					}
+				case *ssa.Call:
+					if core.CalleeName(x) == "builtin:append" {
+						v := core.Strip(x.Call.Args[0])
+						if sl, isSl := v.(*ssa.Slice); isSl {
+							v = core.Strip(sl.X)
+						}
+						if f, ok := core.LoadedField(v); ok && strings.HasSuffix(f.Struct, "storeHandler") {
+							bad = "append onto " + f.String() + " at " + p.InstrPos(x)
+						}
+					}
+				case *ssa.Slice:
+					if f, ok := core.LoadedField(core.Strip(x.X)); ok && strings.HasSuffix(f.Struct, "storeHandler") {
+						if _, isSlT := x.X.Type().Underlying().(*types.Slice); isSlT {
+							bad = "re-slice of " + f.String() + " at " + p.InstrPos(x)
+						}
+					}
+				}
+			}
+		}
+	}
+	r.Check(bad == "", "D3", core.FuncName(chg), "change-handler-writes-no-member-of-the-handler", p.Pos(chg.Pos()), fmt.Sprintf("%d instructions of the change handler's unit scanned: no store to, append onto or re-slice of a member of the handler", n), "the change handler keeps working memory in the handler object ("+bad+"): the handler is shared by every resource of its pattern, and two changes on different resources can be diffed at the same time - one diff's pending events are overwritten by the other's")
+}
+
+// posOfV: the position of a value (its instruction, or the function for a parameter).
+func posOfV(p *core.Prog, v ssa.Value, fn *ssa.Function) string {
+	if in, ok := v.(ssa.Instruction); ok {
+		return p.InstrPos(in)
+	}
+	return p.Pos(fn.Pos())
+}
+
+// c10SameLockKey is C10.B2.
+func c10SameLockKey(r *core.Run, rule string) {
+	p := r.P
+	n := 0
+	for _, rel := range storePkgs {
+		short := rel[strings.LastIndex(rel, "/")+1:]
+		for _, spec := range []struct{ typ, name string }{{"Store", "Read"}, {"Store", "Write"}, {"readTxn", "Close"}, {"writeTxn", "Close"}} {
+			m := methodNamed(p, rel, spec.typ, spec.name)
+			if m == nil {
+				continue
+			}
+			idF, okID := accessorField(p, rel, "readTxn", "ID")
+			for _, h := range p.Helpers(m) {
+				for _, c := range core.Calls(h) {
+					if isLockCall(c) == "" {
+						continue
+					}
+					args := c.Common().Args
+					if c.Common().StaticCallee() != nil && c.Common().StaticCallee().Signature.Recv() != nil && len(args) > 0 {
+						args = args[1:]
+					}
+					if len(args) == 0 {
+						continue // one lock for the whole store
+					}
+					n++
+					good := false
+					for _, av := range paramArgs(p, args[0], 0) {
+						v := core.Strip(av)
+						if prm, ok := v.(*ssa.Parameter); ok && isStringType(prm.Type()) && prm.Parent() == m {
+							good = true
+						}
+						if f, ok := core.LoadedField(v); ok && okID && f == idF {
+							good = true
+						}
+					}
+					r.Check(good, rule, core.FuncName(h), "lock-key-is-the-transaction-id:"+isLockCall(c), p.InstrPos(c), "the lock is taken / released on the transaction's id", short+"."+spec.typ+"."+spec.name+" hands the key lock "+valDesc(args[0])+" instead of the transaction's id: readers and writers of one resource then lock different keys and do not exclude each other")
+				}
+			}
+		}
+	}
+	if n == 0 {
+		r.Unres(rule, "store-lock-calls", "no keyed lock call found in Read / Write / Close of the shipped stores")
+	}
 }
